@@ -1287,7 +1287,12 @@ fn builtin_pcap_read_all(args: Vec<Rc<Object>>) -> Result<Rc<Object>, String> {
                         if e.kind() == io::ErrorKind::UnexpectedEof {
                             break;
                         }
-                        // For other IO errors, return the error
+                        // For other IO errors, return the error - unless packets
+                        // were read before it: those must not be lost (the next
+                        // call reports the error)
+                        if !packets.is_empty() {
+                            break;
+                        }
                         return Ok(Rc::new(Object::Err(ErrorObj::IO(e))));
                     }
                 }
